@@ -118,18 +118,29 @@ def fam_of(case):
 
 
 def make_config(case, path):
+    """the configuration dict; options that have their default value are left out when case["omit"] is set"""
     f = fam_of(case)
+    omit = case.get("omit", False)
+
+    def var(src, chain, tn, un=None):
+        d = {"source": src}
+        if chain or not omit:
+            d["transform"] = chain_cfg(chain)
+        if tn or not omit:
+            d["transform_none_value"] = tn
+        if un is not None and (un or not omit):
+            d["use_none_value"] = un
+        return d
     src, chain, tn = f["sid"]
-    cfg = {"file": path, "regular_expression": f["re"], "cache_enabled": case["cache"],
-           "find_first_match": case["ffm"], "mismatch_action": case["mis"],
-           "duplicate_system_id_action": case["dup"],
-           "system_id": {"source": src, "transform": chain_cfg(chain), "transform_none_value": tn},
-           "variables": {}}
+    cfg = {"file": path, "regular_expression": f["re"], "system_id": var(src, chain, tn), "variables": {}}
+    for opt, key, default in (("cache_enabled", "cache", True), ("find_first_match", "ffm", False),
+                              ("mismatch_action", "mis", "warn"), ("duplicate_system_id_action", "dup", "warn")):
+        if case[key] != default or not omit:
+            cfg[opt] = case[key]
     if f["ign"] is not None:
         cfg["regular_expression_ignore"] = f["ign"]
     for key, vsrc, vchain, vtn, vun in f["vars"]:
-        cfg["variables"][key] = {"source": vsrc, "transform": chain_cfg(vchain),
-                                 "transform_none_value": vtn, "use_none_value": vun}
+        cfg["variables"][key] = var(vsrc, vchain, vtn, vun)
     return cfg
 
 
@@ -337,7 +348,7 @@ class C14(Check):
                     for stt in seq:
                         h.append(("edit", stt))
                         h.extend(bat if not quick else rng.sample(bat, min(len(bat), 9)))
-                    yield dict(fl, fam=fam, init=rng.choice(pool), hist=h)
+                    yield dict(fl, fam=fam, init=rng.choice(pool), hist=h, omit=rng.random() < 0.5)
         # 2. line endings: every pair of terminators between three lines, with and without one at EOF
         f = FAMILIES["numbered"]
         for e1 in ["\n", "\r\n", "\r", "\n\r", "\r\r\n", ""]:
@@ -358,7 +369,7 @@ class C14(Check):
         for _ in range(n):
             fam = rng.choice(fams[:3]) if rng.random() < 0.92 else "raising"
             f = FAMILIES[fam]
-            case = dict(rng.choice(flags), fam=fam)
+            case = dict(rng.choice(flags), fam=fam, omit=rng.random() < 0.5)
             if fam == "raising" and rng.random() < 0.5:
                 case["alt"] = True
                 f = fam_of(case)
@@ -458,7 +469,7 @@ class C14(Check):
 
     def show(self, c):
         return {"family": c["fam"] + ("/alt" if c.get("alt") else ""),
-                "config": {k: c[k] for k in ("cache", "ffm", "mis", "dup")},
+                "config": {k: c[k] for k in ("cache", "ffm", "mis", "dup")}, "defaults_omitted": bool(c.get("omit")),
                 "regular_expression": fam_of(c)["re"], "regular_expression_ignore": fam_of(c)["ign"],
                 "system_id": repr(fam_of(c)["sid"]), "variables": [repr(v) for v in fam_of(c)["vars"]],
                 "init": list(c["init"]), "hist": [list(s) if s[0] != "edit" else ["edit", list(s[1])] for s in c["hist"]]}
